@@ -172,6 +172,7 @@ structure Store (α : Type) where
   acc : Array α
   /-- the two pointers designate the same memory (`acc` is then ignored) -/
   aliased : Bool
+  deriving DecidableEq
 
 /-- the memory behind the `accumulation` pointer -/
 def Store.accArr (s : Store α) : Array α := if s.aliased then s.field else s.acc
@@ -216,6 +217,7 @@ structure FieldGrid (α : Type) where
   ncols : Int
   data : Array α
   nodata : α
+  deriving DecidableEq
 
 /-- `grid.accumulate(flowdir, to_accumulate, nprint, max_accumulated_cells)` on grid objects.
 `fdNodata` is `flowdir.nodata` as a double (used only when the default unit field is built from a clone of
